@@ -488,24 +488,27 @@ def explore_prune(funcs, index, enums, text):
     return res
 
 
-def explore_delete(funcs, index, enums, text, follow_mode=0):
-    """C10: -name X -delete over a model file system; X selects a symbolic subset of eight entries; -P (0) or -L (2)"""
+def explore_delete(funcs, index, enums, text, follow_mode=0, prune=False):
+    """C10: -name X -delete over a model file system; X selects a symbolic subset of eight entries; -P (0) or -L (2).
+    prune: the expression is `-name P -prune -o -name X -delete` (P a symbolic subset of two directories): -delete implies -depth, under which -prune
+    cuts nothing - exactly the entries with X and not P go, in post-order, as `-depth EXPR -print` would report them"""
     import re
     global TREE
     saved_tree = TREE
     # no unreadable directory here (its diagnostic would mask the status of a failed removal); a link to an (empty) directory elsewhere instead
     TREE = [e for e in saved_tree if e[2] != "unreadable"] + [("r/s", 1, "dirlink")]
     try:
-        return _explore_delete(funcs, index, enums, text, follow_mode)
+        return _explore_delete(funcs, index, enums, text, follow_mode, prune)
     finally:
         TREE = saved_tree
 
 
-def _explore_delete(funcs, index, enums, text, follow_mode):
+def _explore_delete(funcs, index, enums, text, follow_mode, prune=False):
     import re
-    res = {"kind": "delete/%s" % ["-P", "-H", "-L"][follow_mode], "paths": 0, "checks": 0, "violations": [], "unsupported": {}, "samples": []}
-    selectable = ["r", "r/d", "r/d/g", "r/d/g/h", "r/d/f", "r/d/k", "r/l", "r/s"]
+    res = {"kind": "delete%s/%s" % ("+prune" if prune else "", ["-P", "-H", "-L"][follow_mode]), "paths": 0, "checks": 0, "violations": [], "unsupported": {}, "samples": []}
+    selectable = ["r", "r/d", "r/d/g", "r/d/g/h", "r/d/f", "r/d/k", "r/l", "r/s"] if not prune else ["r/d", "r/d/g/h", "r/d/f", "r/d/k", "r/l"]
     sel = {p: z3.Bool("sel_" + p.replace("/", "_")) for p in selectable}
+    psel = {p: z3.Bool("prune_" + p.replace("/", "_")) for p in (["r/d", "r/d/g"] if prune else [])}
     kinds = {q: k for q, _d, k in TREE}
     state = {}
 
@@ -538,6 +541,13 @@ def _explore_delete(funcs, index, enums, text, follow_mode):
 
     def name_matches(m, args):
         p = text_of(m, m.call("WalkEntry::path", [args[1]]))
+        which = deref(args[0]).fields[0] if deref(args[0]).fields else "X"
+        if which == "P":
+            if p not in psel:
+                return False
+            v = m.decide(psel[p])
+            state["pselv"][p] = v
+            return v
         if p not in sel:
             return False
         v = m.decide(sel[p])
@@ -635,7 +645,7 @@ def _explore_delete(funcs, index, enums, text, follow_mode):
            "FileType::is_dir": std_or_crate("FileType::is_dir", lambda k: k == "d"),
            "FileType::is_file": lambda m, a: deref(a[0]).fields[0] == "f",
            "<FileType as Into>::into": lambda m, a: m.call("<FileType as From<FileType>>::from", a),
-           "<NameMatcher as Matcher>::matches": name_matches, "NameMatcher::new": lambda m, a: Struct("NameMatcher", []),
+           "<NameMatcher as Matcher>::matches": name_matches, "NameMatcher::new": lambda m, a: Struct("NameMatcher", [text_of(m, a[0])]),
            "remove_file": remove_file, "remove_dir": remove_dir, "fs::remove_file": remove_file, "fs::remove_dir": remove_dir,
            "Path::symlink_metadata": lambda m, a: Ok(Struct("MetadataV", [KIND[kinds[text_of(m, a[0])]]])),
            "Metadata::file_type": lambda m, a: Struct("StdFileType", [deref(a[0]).fields[0]]),
@@ -664,10 +674,10 @@ def _explore_delete(funcs, index, enums, text, follow_mode):
     t0 = time.time()
     while m.pending:
         m.reset_path(m.pending.pop())
-        state.update(wd={}, it=None, selv={}, ops=[], exists={p for p, _d, _k in TREE})
+        state.update(wd={}, it=None, selv={}, pselv={}, ops=[], exists={p for p, _d, _k in TREE})
         try:
             cfg = [m.call("<Config as Default>::default", [])]
-            r = m.call("build_top_level_matcher", [SliceRef([RStr(t) for t in ["-name", "X", "-delete"]]), Ptr(cfg, 0)])
+            r = m.call("build_top_level_matcher", [SliceRef([RStr(t) for t in (["-name", "P", "-prune", "-o"] if prune else []) + ["-name", "X", "-delete"]]), Ptr(cfg, 0)])
             if r.variant != "Ok":
                 raise Unsupported("expression rejected")
             cfg[0].fields[CONFIG_FIELDS_of(text).index("follow")] = Enum("Follow", ["Never", "Roots", "Always"][follow_mode], [])
@@ -700,7 +710,7 @@ def _explore_delete(funcs, index, enums, text, follow_mode):
                     visit(j)
             if k == "unreadable":
                 failed[0] = True            # its contents cannot be read: diagnosed
-            if selv.get(p, False):
+            if selv.get(p, False) and not state["pselv"].get(p, False):
                 if k in ("dir", "unreadable"):
                     want_ops.append(("rmdir", p))
                     if any(q.startswith(p + "/") for q in exists):
@@ -712,6 +722,8 @@ def _explore_delete(funcs, index, enums, text, follow_mode):
                     exists.discard(p)
         visit(0)
         conf = "%s: X selects %r" % (res["kind"], sorted(p for p, v in selv.items() if v))
+        if prune:
+            conf += ", P (-prune) selects %r" % sorted(p for p, v in state["pselv"].items() if v)
         if not bool(cfg[0].fields[CONFIG_FIELDS_of(text).index("depth_first")]):
             res["violations"].append({"what": conf + ": -delete did not switch the walk to depth-first", "config": conf})
         if state["ops"] != want_ops:
